@@ -119,7 +119,12 @@ func sortMain(args []string) {
 		}
 		for _, n := range pool {
 			if c.errs[n] {
-				gorums.VerifSetLastErr(n, someErr)
+				// distinct error values per node (the normal case: errors recorded by different channels), sometimes a shared one
+				if r.Intn(4) == 0 {
+					gorums.VerifSetLastErr(n, someErr)
+				} else {
+					gorums.VerifSetLastErr(n, fmt.Errorf("last error of node %d", n.ID()))
+				}
 			} else {
 				gorums.VerifSetLastErr(n, nil)
 			}
